@@ -28,7 +28,11 @@ class Prop(BaseProp):
         # no seam installation at all: the production configuration is what is compared
         self.args = args
         self.probes = __import__("sim.base", fromlist=["Counter"]).Counter()
-        self.patched = []
+        # ... except the timer: d42 reads no timer today; if a change makes it read one, it reads the
+        # simulated one, whose speed the 'ambient_shift' execution varies
+        from .world import World, install
+        self.world = World()
+        self.patched = install(self.world, clock=False, prng=False, entropy=False, timer=True)
         self.sim_seconds = 0.0
         self.clock_fired = {}
         self.setup()
@@ -76,12 +80,27 @@ class Prop(BaseProp):
             if noise:
                 self._noise(nr, schemas, i)
             try:
-                out.append(canon(self.fake(sch)))
+                g = self.fake(sch)
+                out.append(canon(g))
+                scribble(g)       # what a caller may do with its own value; later values must not show it
             except RecursionError:
                 out.append("EXC:RecursionError")
             except Exception as e:
                 out.append("EXC:%s" % type(e).__name__)
         return out
+
+    def values_shifted(self, case, schemas):
+        """The same sequence in a shifted ambient state: another local time zone, a coarse decimal context
+        with traps, and a simulated timer on which every read costs 0.7 s (a slow or busy machine)."""
+        from .world import ambient_shift
+        w = self.world
+        step = w.time_step
+        w.time_step = 0.7
+        try:
+            with ambient_shift():
+                return self.values(case, schemas)
+        finally:
+            w.time_step = step
 
     def values_other_thread(self, case, schemas):
         """set_seed(k) on the calling thread, the fake() calls on a helper thread that is joined before
@@ -97,7 +116,9 @@ class Prop(BaseProp):
                     out.append("UNBUILT")
                     continue
                 try:
-                    out.append(canon(self.fake(sch)))
+                    g = self.fake(sch)
+                    out.append(canon(g))
+                    scribble(g)
                 except RecursionError:
                     out.append("EXC:RecursionError")
                 except Exception as e:
@@ -221,9 +242,11 @@ class Prop(BaseProp):
         schemas2 = self.build_all(case)
         d = self.values(case, schemas2)               # freshly built equal schemas
         e = self.values_other_thread(case, schemas)   # seeded on this thread, generated on another (sequentially)
+        f = self.values_shifted(case, schemas)        # other local time zone / decimal context, slow simulated timer
         violations = []
         feats = seed_features(case)
-        for label, other in (("repeat_same_process", b), ("interleaved_noise", c), ("rebuilt_schemas", d), ("other_thread", e)):
+        for label, other in (("repeat_same_process", b), ("interleaved_noise", c), ("rebuilt_schemas", d), ("other_thread", e),
+                             ("ambient_shift", f)):
             if other != a:
                 idx = [i for i, (x, y) in enumerate(zip(a, other)) if x != y]
                 sig = {"property": "C17", "outcome": "differs:" + label}
@@ -243,7 +266,7 @@ class Prop(BaseProp):
         shapes = tuple(S.shape(sp) for sp in case["specs"])
         keys = {derive(shapes, type(dec(case["k"])).__name__) & 0xFFFFFFFFFFFF}
         self.warm.append((case, a))
-        return {"executions": 5, "violations": violations, "keys": keys, "digest": fast_digest(a),
+        return {"executions": 6, "violations": violations, "keys": keys, "digest": fast_digest(a),
                 "per_schema": [fast_digest(x) for x in a],
                 "sample": {"seed": canon(dec(case["k"]))[:60], "schemas": [S.shape(sp)[:120] for sp in case["specs"]][:4],
                            "values": [x[:80] for x in a][:4]}}
@@ -279,6 +302,8 @@ class Prop(BaseProp):
             other = self.values_other_thread(case, schemas)
         elif mode == "rebuilt_schemas":
             other = self.values(case, self.build_all(case))
+        elif mode == "ambient_shift":
+            other = self.values_shifted(case, schemas)
         else:
             other = self.values(case, schemas)
         if a == other:
@@ -303,6 +328,23 @@ class Prop(BaseProp):
         case, sched = v["case"], v["schedule"]
         for c in shrink_case(case):
             yield c, sched
+
+
+def scribble(v, depth=0):
+    """In-place edits of a value fake() returned (the caller owns it): lists grow, dicts get a key."""
+    if depth > 6:
+        return
+    t = type(v)
+    if t is list:
+        for x in v:
+            scribble(x, depth + 1)
+        v.append("<scribble>")
+    elif t is dict:
+        for x in list(v.values()):
+            scribble(x, depth + 1)
+        v["<scribble>"] = depth
+    elif t is bytearray:
+        v.extend(b"!")
 
 
 def gen_case(labels, cfg):
